@@ -29,6 +29,9 @@ type StructCase struct {
 	// Twice (entry VStruct only): every rule set is registered twice for its target - first a
 	// decoy set, then the real one, which replaces it (SetRule stores the set given last)
 	Twice bool `json:"twice,omitempty"`
+	// RMSlot: the unscoped rule set is handed over in a rule-map OBJECT that is kept between the
+	// calls of one history and refilled in place (callers reuse one valid.RM and edit it between calls)
+	RMSlot string `json:"rmslot,omitempty"`
 	// LateReg: a global function of this name is registered (SetCustomerValidFn) during the
 	// call set-up - for the builder entry (VStruct) AFTER the validator object was created
 	// and configured, right before Valid.  The name is a placeholder (LATE1) that every
